@@ -775,7 +775,7 @@ Proof.
   cbn [rb_draw rb_xl rb_xc]. destruct (rb_drawable b q) eqn:Ed; [|reflexivity].
   set (rel := (fst q - rb_xl b, snd q - rb_xc b)).
   unfold linef at 1. unfold linesf at 1. destruct (ceq rel p).
-  - destruct (bits16 (g rel) bits) as (K1 & K2 & _); try lia; [apply Hg|].
+  - destruct (bits16 (g rel) bits (Hg rel) ltac:(lia)) as (K1 & K2 & _).
     destruct (Z.eqb_spec (Z.lor (g rel) bits) 0) as [E|_]; [lia|].
     cbn [pcont]. rewrite !line_bits_lbc.
     change (rb_cells (WinDefs.mkRB (WinDefs.rb_lines b) (WinDefs.rb_cols b) _ (rb_mask b) (rb_clip b) (rb_xl b) (rb_xc b) (rb_depth b) (rb_stack b)) q)
